@@ -13,7 +13,7 @@ from .util import same_class, self_obj
 APP = "bellows.zigbee.application"
 UTIL = "bellows.zigbee.util"
 NAMED = "bellows.types.named"
-VERSIONS = list(range(4, 15))
+from ..su import VERSIONS  # noqa: E402  (shared list, filled from EZSP._BY_VERSION)
 PAIRS = {("pan_id", "panId"), ("extended_pan_id", "extendedPanId"), ("channel", "radioChannel"), ("channel_mask", "channels"),
          ("nwk_update_id", "nwkUpdateId"), ("nwk_manager_id", "nwkManagerId")}
 
@@ -293,7 +293,7 @@ def r14_5(ctx):
     -> frame counters -> security state -> link keys -> children -> form -> bring-up; the security state is built
     from the network info with the hashed form exactly for versions above 4; children are written with their
     network addresses."""
-    for version in (4, 8, 14):
+    for version in (VERSIONS[0], 8, VERSIONS[-1]):
         f, paths = explore_write(ctx, version)
         for p in paths:
             if p.terminal != "return":
